@@ -17,6 +17,7 @@ def main(argv=None):
     parser.add_argument("--runs", type=int, default=None)
     parser.add_argument("--workers", type=int, default=None)
     parser.add_argument("--replay", default=None)
+    parser.add_argument("--only", default=None, help="sensitivity: substring filter on mutation names")
     args = parser.parse_args(argv)
     from sim import batch  # pylint: disable=import-outside-toplevel
 
@@ -24,6 +25,9 @@ def main(argv=None):
         status, detail = batch.replay_file(args.replay)
         print(status, json.dumps(detail, default=str)[:3000])
         return {"REPRODUCED": 1, "NOT-REPRODUCED": 0}.get(status, 2)
+    if args.target == "sensitivity":
+        from sim import sensitivity  # pylint: disable=import-outside-toplevel
+        return sensitivity.main(args)
     if args.target == "selftest":
         from sim import selftest  # pylint: disable=import-outside-toplevel
         return selftest.main(args)
